@@ -100,6 +100,90 @@ def _has_rewrite_path(world, table, rule, L, Rc) -> bool:
     return False
 
 
+def import_order(world) -> dict[str, int]:
+    """Rank of every module in the order in which a first import of the package finishes executing them."""
+    order: list[str] = []
+    seen: set[str] = set()
+
+    def deps(name: str) -> list[str]:
+        out = []
+        for v in world.modules[name].imports.values():
+            parts = v.split('.')
+            for cut in range(1, len(parts) + 1):
+                m = '.'.join(parts[:cut])
+                if m in world.modules and m != name and m not in out:
+                    out.append(m)
+        return out
+
+    def visit(name: str) -> None:
+        if name in seen:
+            return
+        seen.add(name)
+        for d in deps(name):
+            visit(d)
+        order.append(name)
+
+    for root in sorted(world.modules, key=lambda m: (m.count('.'), m)):
+        visit(root)
+    return {m: i for i, m in enumerate(order)}
+
+
+def _scan_order(ctx, ck, fn, loop, rules, infos, pats) -> None:
+    """N7: the binary rules are tried in registration order - in particular the identity-based rule for an operator next to
+    its own lazy inverse (registered first) wins over the class-based rules that accept the same pair.  The registry is
+    built and traversed by an abstract interpretation of RuleRegistry (register / __iter__ / whatever the scan iterates)."""
+    from ..axinterp import Env, Interp, Obj, Raised, Undecided
+
+    world, table = ctx.world, ctx.table
+    fors = [n for n in ast.walk(loop) if isinstance(n, ast.For) and isinstance(n.target, ast.Name)
+            and any(isinstance(c, ast.Call) and isinstance(c.func, ast.Attribute) and isinstance(c.func.value, ast.Name) and c.func.value.id == n.target.id and c.func.attr in ('check', 'apply')
+                    for c in ast.walk(n))]
+    if len(fors) != 1:
+        ck.incomplete('N7', loop, f'expected one loop over the registered rules inside the scan, found {len(fors)}', instance='rule order')
+        return
+    it_expr = fors[0].iter
+    rank = import_order(world)
+    binary = [r for r in rules if table.is_subclass(r, f'{RULES}.AbstractBinaryRule') and not r.name.startswith('Abstract')]
+    binary.sort(key=lambda r: (rank.get(r.module.name, 10**6), r.node.lineno))
+    reg_cls = table.find(f'{RULES}.RuleRegistry')
+    if reg_cls is None:
+        raise AnalysisError('anchor vanished: RuleRegistry')
+    module = module_of(fn)
+    reg_names = [n for n, d in module.defs.items() if isinstance(d, (ast.Assign, ast.AnnAssign)) and d.value is not None and 'RuleRegistry' in ast.unparse(d.value)]
+    it = Interp(world, table, budget=400_000)
+    try:
+        registry = it.construct(reg_cls)
+        objs = {r.qual: Obj(r, {}) for r in binary}
+        for r in binary:
+            it.call_method(registry, 'register', objs[r.qual])
+    except (Undecided, Raised) as e:
+        ck.incomplete('N7', reg_cls.node, f'the registration of the rules could not be followed: {e}', instance='rule order')
+        return
+    checked = 0
+    for L, Rc, text in pats:
+        accepting = [r for r in binary if _accepts(table, infos[r.qual], L, Rc) and _has_rewrite_path(world, table, r, L, Rc)]
+        if not accepting:
+            continue
+        env = Env(module)
+        for n in reg_names:
+            env.vars[n] = registry
+        env.vars['left'] = Obj(L, {})
+        env.vars['right'] = Obj(Rc, {})
+        try:
+            tried = [o.cls for o in it.iterate(it.eval(it_expr, env)) if isinstance(o, Obj)]
+        except (Undecided, Raised) as e:
+            ck.incomplete('N7', fors[0], f'the order in which the rules are tried for {text} could not be followed: {e}', instance=f'order for {text}')
+            continue
+        first = next((r for r in tried if r in accepting), None)
+        checked += 1
+        ck.expect('N7', first is accepting[0], fors[0],
+                  f'{text}: the first rule tried that accepts the pair is {accepting[0].name}' + (f' (before {", ".join(r.name for r in accepting[1:])})' if len(accepting) > 1 else ''),
+                  f'{text}: the scan tries {first.name if first else "no accepting rule"} before {accepting[0].name}, which is registered first: the pair is rewritten by the wrong rule '
+                  '(an operator next to its own lazy inverse becomes a zero rotation instead of disappearing)' if first is not None else f'{text}: {accepting[0].name} is never tried by the scan',
+                  instance=f'order for {text}', nontrivial=len(accepting) > 1)
+    ck.floor('N7', checked, 20, 'documented patterns whose rule order was followed')
+
+
 def run(ctx, ck) -> None:
     world, table = ctx.world, ctx.table
     rules = table.rules()
@@ -128,6 +212,7 @@ def run(ctx, ck) -> None:
         ck.incomplete('N2', fn, f'expected one scan loop, found {len(whiles)}')
         return
     loop = whiles[0]
+    _scan_order(ctx, ck, fn, loop, rules, infos, pats)
     test = term(loop.test)
     # index < len(operands) - 1
     cur = None
@@ -462,5 +547,6 @@ def controls(world: World) -> list[Control]:
         Control('no-step-back', lambda w: edit_def(w, RULES, 'AlgebraicReductionRule.apply', lambda fn: remove_stmt(fn, 'if index > 0:', prefix=True)), 'C07.N2'),
         Control('skip-after-no-rule', lambda w: edit_def(w, RULES, 'AlgebraicReductionRule.apply', lambda fn: replace_stmt(fn, 'index += 1', 'index += 2')), 'C07.N2'),
         Control('identity-not-refiltered', lambda w: edit_def(w, RULES, 'AlgebraicReductionRule.apply', lambda fn: remove_stmt(fn, 'if any((isinstance(op, IdentityOperator) for op in new_ops)):', prefix=True)), 'C07.N4'),
+        Control('registry-iterated-backwards', lambda w: edit_def(w, RULES, 'RuleRegistry.__iter__', lambda fn: replace_expr(fn, 'iter(self._registry)', 'iter(self._registry[::-1])')), 'C07.N7'),
         Control('placement-inverted', lambda w: edit_def(w, RULES, 'HomothetyRule.apply', lambda fn: replace_expr(fn, 'first.out_size() <= last.in_size()', 'first.out_size() >= last.in_size()')), 'C07.N3'),
     ]
